@@ -13,7 +13,10 @@ INC="-I$REPO -I$REPO/src -I$REPO/private -I$REPO/os -I$BD -I$BD/src -I$REPO/src/
 DEFS="-DDISPATCH_VERIF=1 -DHAVE_CONFIG_H=1"
 SRC=$ROOT/harness/$DRV.c; CC=clang-$CCV; STD="-std=gnu11"
 if [ -f "$ROOT/harness/$DRV.cpp" ]; then SRC=$ROOT/harness/$DRV.cpp; CC=clang++-$CCV; STD="-std=gnu++17"; fi
-clang-$CCV -O1 -g $SAN -c "$ROOT/harness/verif_rt.c" -o "$OUT/verif_rt.o"
-$CC -O1 -g $SAN $STD -fblocks -Wno-everything $DEFS $INC ${EXTRA_CFLAGS} "$SRC" "$OUT/verif_rt.o" \
-  "$BD/src/libdispatch.a" "$BD/src/BlocksRuntime/libBlocksRuntime.a" -lpthread -lrt -lstdc++ -lm ${EXTRA_LIBS} -o "$OUT/$DRV"
+# concurrent checks share drivers: build under private names, publish with an atomic rename
+T=$OUT/.tmp.$$; trap 'rm -f "$T.o" "$T.bin"' EXIT
+clang-$CCV -O1 -g $SAN -c "$ROOT/harness/verif_rt.c" -o "$T.o"
+$CC -O1 -g $SAN $STD -fblocks -Wno-everything $DEFS $INC ${EXTRA_CFLAGS} "$SRC" "$T.o" \
+  "$BD/src/libdispatch.a" "$BD/src/BlocksRuntime/libBlocksRuntime.a" -lpthread -lrt -lstdc++ -lm ${EXTRA_LIBS} -o "$T.bin"
+mv -f "$T.bin" "$OUT/$DRV"
 echo "$OUT/$DRV"
